@@ -10,6 +10,7 @@ import (
 	"io"
 	"net"
 	"net/http"
+	"time"
 
 	"github.com/bluenviron/mediacommon/v2/pkg/rewindablereader"
 
@@ -39,7 +40,7 @@ func VerifC04NewClientTunnelWebSocket(ctx context.Context, addr string, dial Ver
 // plain RTSP (returns the rewindable reader) and for the WebSocket upgrade (returns wsReader/wsWriter);
 // the HTTP-tunnel branch needs a running Server and is not reachable here.
 func VerifC04ServerHandleTunneling(nconn net.Conn) (io.ReadWriter, error) {
-	cr := &serverConnReader{sc: &ServerConn{nconn: nconn}}
+	cr := &serverConnReader{sc: &ServerConn{nconn: nconn, s: &Server{IdleTimeout: 60 * time.Second, ReadTimeout: 10 * time.Second, WriteTimeout: 10 * time.Second}}}
 	return cr.handleTunneling(nconn)
 }
 
